@@ -248,7 +248,9 @@ PROPS = {
                       "scan of the root package, errutil, withstack and domains) is "
                       "called, for depth 0..3, at the end of a call path through helper functions of two other packages (never-inlined functions, a function "
                       "inlined into its caller, value and pointer methods, generic functions and methods); on the same source line runtime.Callers+CallersFrames records the logical stack. The "
-                      "innermost frame of the captured stack (function, file, line), GetOneLineSource and the package domain must denote the runtime's d-th frame. "
+                      "innermost frame of the captured stack (function, file, line), GetOneLineSource and the package domain must denote the runtime's d-th frame; "
+                      "the whole reportable stack trace must have one frame per recorded program counter, oldest first, each with the function, file and line the "
+                      "runtime resolves that counter to. "
                       "Call paths are 3-6 helpers deep, and in a quarter of the cases 20-70 (the library records at most 32 frames). Third part (innermost-source): "
                       "over generated single-cause chains mixing stack-capturing layers of the library and of pkg/errors, layers without frames and wrappers of "
                       "every kind (boosted: foreign wrappers that expose their cause only through Cause()), locally and after a hop, GetOneLineSource must give "
